@@ -187,3 +187,18 @@ def from_delayed(dfs, **kw):
 
 def from_pandas(df, **kw):
     return df
+
+
+def unique(values):
+    """pandas.unique: distinct values in order of first appearance (not sorted); symbolic equality forks"""
+    vals = list(symnp.asarray(values).ravel().flat_values())
+    out = []
+    for v in vals:
+        dup = False
+        for u in out:
+            if bool(v == u):
+                dup = True
+                break
+        if not dup:
+            out.append(v)
+    return symnp.asarray(out) if out else symnp.asarray([], 'float64')
